@@ -592,6 +592,11 @@ func (ss *wSess) sendRaw(raw []byte) {
 		var msg ClientComMessage
 		if json.Unmarshal(raw, &msg) == nil {
 			if pkt := pbCliSerialize(&msg); pkt != nil {
+				if pkt.Extra != nil && msg.Extra != nil {
+					// a gRPC client fills extra.auth_level itself; pbCliSerialize (the server's own use: plugins,
+					// cluster) takes it from the level the dispatcher has resolved, which is not set here
+					pkt.Extra.AuthLevel = pbx.AuthLevel(pbx.AuthLevel_value[strings.ToUpper(msg.Extra.AuthLevel)])
+				}
 				if b, err := proto.Marshal(pkt); err == nil {
 					var back pbx.ClientMsg
 					if proto.Unmarshal(b, &back) == nil {
@@ -693,6 +698,20 @@ func (w *wWorld) resolve(ref string, u int) string {
 			return types.GrpToChn(w.groups[k])
 		}
 		return w.groups[k]
+	case len(ref) == 2 && ref[0] == 'F':
+		// the routable name of user k's search topic (fndXXX), whoever sends it
+		k := int(ref[1] - '0')
+		if k < 0 || k >= len(w.users) {
+			return ""
+		}
+		return w.users[k].uid.FndName()
+	case len(ref) == 2 && ref[0] == 'M':
+		// the routable name of user k's 'me' topic (usrXXX) - the same text as the P2P spelling p<k>
+		k := int(ref[1] - '0')
+		if k < 0 || k >= len(w.users) {
+			return ""
+		}
+		return w.users[k].uid.UserId()
 	case len(ref) == 3 && ref[0] == 'Q':
 		// the full p2pXXX name of the topic between users i and j, whoever sends it
 		i, j := int(ref[1]-'0'), int(ref[2]-'0')
